@@ -1157,9 +1157,11 @@ package bpmn
 // ---------------------------------------------------------------------------------------------------------------
 // gateway_event_based.go (C06)
 
-// The termination channels of one activation: one per outgoing flow, pairwise different, open.
+// The termination channels of one activation: one per outgoing flow, pairwise different, open, and unbuffered — the
+// withdrawal is a rendezvous with the losing token (a buffered notification would be lost for an alternative that starts
+// to wait after the determination: it looks itself up in the emptied map and is never withdrawn).
 //@ spec func ebgChannels(tc map[schema.IdRef]chan bool) bool =
-//@   (forall k schema.IdRef :: has(tc, k) ==> tc[k] != nil && !closed(tc[k])) &&
+//@   (forall k schema.IdRef :: has(tc, k) ==> tc[k] != nil && !closed(tc[k]) && chancap(tc[k]) == 0) &&
 //@   (forall k schema.IdRef, l schema.IdRef :: has(tc, k) && has(tc, l) && k != l ==> tc[k] != tc[l])
 
 // One activation: a fresh set of termination channels, one action carrying every outgoing flow, the terminate lookup
@@ -1180,7 +1182,7 @@ package bpmn
 //@     invariant gw.wiring != nil && gw.wiring == old(gw.wiring) && gw.mch == old(gw.mch) && first == 0
 //@     invariant terminationChannels != nil && fresh(terminationChannels)
 //@     invariant forall k schema.IdRef :: has(terminationChannels, k) ==> fresh(terminationChannels[k]) && terminationChannels[k] != nil && terminationChannels[k] <= alloc
-//@     invariant forall k schema.IdRef :: has(terminationChannels, k) ==> !closed(terminationChannels[k])
+//@     invariant forall k schema.IdRef :: has(terminationChannels, k) ==> !closed(terminationChannels[k]) && chancap(terminationChannels[k]) == 0
 //@     invariant forall k schema.IdRef, l schema.IdRef :: has(terminationChannels, k) && has(terminationChannels, l) && k != l ==> terminationChannels[k] != terminationChannels[l]
 
 // The action transformer shared by the alternatives of one activation: the first alternative whose catch event fires
